@@ -4,6 +4,7 @@
   Operators are pairs (3×3 integer matrix, rational translation); equality is taken modulo ℤ³ (`cls`).
 
   Model of (exact arithmetic, `Rat`; the code that exists after fixes C11_1 and C11_2):
+    LATT.__init__ (`int(p[0])`, default)     (cards.py)    -> `decodeLatt`  (no number: N = 1; `int()` truncates)
     LATT.__init__ / LATT.lattdict            (cards.py)    -> `centring` (table REGENERATED: Extracted/Latt.lean)
     SymmetryElement.__eq__                   (dsrmath.py)  -> `opEq`        (`% 1` on the translations)
     SymmetryElement.apply_latt_symm          (dsrmath.py)  -> `applyLatt`
@@ -75,5 +76,20 @@ def expandWith (C : List Vec) (centric : Bool) (S : List Op) : List Op :=
 /-- `Shelxfile.symmcards` after `LATT N` and the `SYMM` lines `S` -/
 def expand (N : Int) (S : List Op) : Option (List Op) :=
   (centring N).map fun C => expandWith C (centricOf N) S
+
+/-! ### the LATT line itself -/
+
+/-- Python's `int(x)` of a float: truncation towards zero -/
+def truncInt (x : Rat) : Int := if 0 ≤ x then x.floor else -((-x).floor)
+
+/-- `LATT.__init__`: the numerical parameters `p` of the line (`Command._parse_line`, floats);
+    `self.N = int(p[0])`, `IndexError` (no number) gives the documented default `LATT N[1]`, further numbers are ignored -/
+def decodeLatt (p : List Rat) : Int :=
+  match p with
+  | [] => 1
+  | x :: _ => truncInt x
+
+/-- `Shelxfile.symmcards` after the LATT line with numerical parameters `p` and the `SYMM` lines `S` -/
+def expandLine (p : List Rat) (S : List Op) : Option (List Op) := expand (decodeLatt p) S
 
 end Shelx.C11
